@@ -8,6 +8,7 @@ def listOf (s : String) : List String := if s == "-" then [] else s.splitOn ","
 
 def ract? (t : String) : Option RAct :=
   if t == "e" then some .eof
+  else if t == "p" then some .panic
   else match arg? "d" t, arg? "s" t, arg? "x" t with
     | some k, _, _ => some (.data k false)
     | _, some k, _ => some (.data k true)
